@@ -1,0 +1,13 @@
+//go:build verif
+
+package routing
+
+import "github.com/slackhq/nebula/firewall"
+
+// Thin exported wrappers for the verification harness (engine `routing`). No behaviour.
+
+func VerifHashPacket(p *firewall.Packet) int { return hashPacket(p) }
+
+func VerifSetBucketUpperBound(g *Gateway, b int) { g.bucketUpperBound = b }
+
+func VerifWeight(g *Gateway) int { return g.weight }
